@@ -718,14 +718,19 @@ def _reinterpret_difference(obj, back):
     import funsor
 
     def find(x, seen):
+        if isinstance(x, (tuple, frozenset)):  # arbitrarily nested containers (e.g. Delta's terms)
+            for c in x:
+                r = find(c, seen)
+                if r is not None:
+                    return r
+            return None
         if not isinstance(x, funsor.terms.Funsor) or id(x) in seen:
             return None
         seen.add(id(x))
         for v in x._ast_values:
-            for c in v if isinstance(v, (tuple, frozenset)) else (v,):
-                r = find(c, seen)
-                if r is not None:
-                    return r
+            r = find(v, seen)
+            if r is not None:
+                return r
         with funsor.interpretations.reflect:
             again = funsor.reinterpret(x)
         if again is not x:
